@@ -26,6 +26,8 @@ pub mod pipeline {
     use crossbeam_channel::{bounded, Receiver, RecvTimeoutError, Sender};
     use std::collections::VecDeque;
     use std::io::{BufRead, Write};
+    use std::sync::atomic::{AtomicBool, Ordering};
+    use std::sync::Arc;
     use std::thread;
     use std::time::Duration;
     use thiserror::Error;
@@ -214,7 +216,7 @@ pub mod pipeline {
             })
         }
 
-        fn render_noagg(mut renderer: Renderer, rx: &Receiver<Row>) {
+        fn render_noagg(mut renderer: Renderer, rx: &Receiver<Row>, failed: &AtomicBool) {
             loop {
                 let next = rx.recv_timeout(Duration::from_millis(50));
                 match next {
@@ -223,6 +225,7 @@ pub mod pipeline {
 
                         if let Err(e) = result {
                             eprintln!("error: {}", e);
+                            failed.store(true, Ordering::Relaxed);
                             break;
                         }
                     }
@@ -237,6 +240,7 @@ pub mod pipeline {
             mut rest: Vec<Box<dyn operator::AggregateOperator>>,
             mut renderer: Renderer,
             rx: &Receiver<Row>,
+            failed: &AtomicBool,
         ) {
             loop {
                 let next = rx.recv_timeout(Duration::from_millis(50));
@@ -252,6 +256,7 @@ pub mod pipeline {
 
                     if let Err(e) = result {
                         eprintln!("error: {}", e);
+                        failed.store(true, Ordering::Relaxed);
                         return;
                     }
                 }
@@ -268,11 +273,17 @@ pub mod pipeline {
             let mut aggregators = self.aggregators;
             let mut preaggs = self.pre_aggregates;
             let renderer = self.renderer;
+            // Set by the render thread when the output is gone, so that the reader stops even if no
+            // row ever reaches the channel again (e.g. every remaining line is filtered out).
+            let output_failed = Arc::new(AtomicBool::new(false));
+            let failed = output_failed.clone();
             let t = if !aggregators.is_empty() {
                 let head = aggregators.remove(0);
-                thread::spawn(move || Pipeline::render_aggregate(head, aggregators, renderer, &rx))
+                thread::spawn(move || {
+                    Pipeline::render_aggregate(head, aggregators, renderer, &rx, &failed)
+                })
             } else {
-                thread::spawn(move || Pipeline::render_noagg(renderer, &rx))
+                thread::spawn(move || Pipeline::render_noagg(renderer, &rx, &failed))
             };
 
             // This is pretty slow in practice. We could move line splitting until after
@@ -287,7 +298,7 @@ pub mod pipeline {
                         break;
                     }
                 };
-                if ct == 0 {
+                if ct == 0 || output_failed.load(Ordering::Relaxed) {
                     break;
                 }
                 let data = String::from_utf8_lossy(&line[..ct]);
